@@ -36,6 +36,7 @@ class Gen:
         self.vars = {}  # name -> kind
         self.init = {}  # prebound name -> literal source
         self.loopvars = []
+        self.no_scope = False  # lambda bodies: no binding constructs (walrus, comprehensions)
 
     # ---- leaves -------------------------------------------------------------------------------------
     def key(self):
@@ -79,6 +80,8 @@ class Gen:
             ["binop", "unary", "boolop", "compare", "ifexp", "call", "list", "tuple", "set", "dict", "subscript", "attr",
              "walrus", "listcomp", "setcomp", "dictcomp", "tracer", "fstring"],
             [14, 6, 9, 12, 6, 9, 5, 5, 3, 6, 8, 3, 3, 4, 2, 2, 6, 4])[0]
+        if self.no_scope and form in ("walrus", "listcomp", "setcomp", "dictcomp"):
+            form = "binop"
         return getattr(self, "e_" + form)(d + 1)
 
     SPECS = [">3", "<4", "03", ".1f", "x", "^5", "d", "q", ">8", "6", "*^7", ".2"]
@@ -438,18 +441,23 @@ class Gen:
                 val = rng.choice(["1", "2", self.wrap("2")])
             return f"{tgt} {op}= {val}"
         if form == "del":
-            r = rng.random()
-            names = [n for n in self.vars if n not in ("f", "g", "o")]
-            if r < 0.4 and names:
-                n = rng.choice(names)
-                self.vars.pop(n, None)
-                return f"del {n}"
-            rs = [n for n, k in self.vars.items() if k == "R" and n not in ("f", "g", "o")]
-            if r < 0.8 and rs:
-                return f"del {rng.choice(rs)}[{self.index(1)}]"
-            self.init.setdefault("o", "Plain()")
-            self.vars.setdefault("o", "R")
-            return f"del o.{rng.choice(['x', 'y'])}"
+            # one to three targets of mixed kinds (name / subscript / attribute), deleted left to right
+            parts = []
+            for _ in range(rng.choice([1, 1, 2, 2, 3])):
+                r = rng.random()
+                names = [n for n in self.vars if n not in ("f", "g", "o")]
+                rs = [n for n, k in self.vars.items() if k == "R" and n not in ("f", "g", "o")]
+                if r < 0.4 and names:
+                    n = rng.choice(names)
+                    self.vars.pop(n, None)
+                    parts.append(n)
+                elif r < 0.8 and rs:
+                    parts.append(f"{rng.choice(rs)}[{self.index(1)}]")
+                else:
+                    self.init.setdefault("o", "Plain()")
+                    self.vars.setdefault("o", "R")
+                    parts.append(f"o.{rng.choice(['x', 'y'])}")
+            return "del " + ", ".join(parts)
         if form == "expr":
             return self.expr(d)[0]
         return "pass"
@@ -588,6 +596,19 @@ def table_cases():
             post = "y = x" if cname != "dict" else "y = (x, xb)"
             cases.append({"src": f"{pre}r = {comp}\n{post}", "init": {}, "mode": "native", "seed": 0,
                           "table": f"shadow {cname} {iname}", "must": True})
+    # del with one to three targets of every combination of kinds, then reads of what must be left
+    tkinds = {"name": ("x", "x = 1\n"), "sub": ("a0[t(1, 0)]", ""), "attr": ("o.x", "o.x = 2\n"),
+              "name2": ("y", "y = 3\n"), "sub2": ("a0[t(2, 0)]", "")}
+    combos = [(a,) for a in ("name", "sub", "attr")]
+    combos += [(a, b) for a in ("name", "sub", "attr") for b in ("name2", "sub2", "attr") if a != b]
+    combos += [("sub", "name", "sub2"), ("sub", "attr", "name"), ("name", "sub", "attr"), ("attr", "sub", "name"), ("sub", "sub2", "name")]
+    for combo in combos:
+        pre = "".join(tkinds[k][1] for k in combo)
+        src = f"{pre}del {', '.join(tkinds[k][0] for k in combo)}\nr = t(9, a0)\nz = (x, y)"
+        cases.append({"src": src, "init": {"a0": "[1, 2, 3]", "o": "Plain()"}, "mode": "native", "seed": 0,
+                      "table": f"del {'-'.join(combo)}", "must": True})
+    for i, src in enumerate(LAMBDA_TABLE):
+        cases.append({"src": src, "init": {}, "mode": "native", "seed": 0, "table": f"lambda {i}", "must": True, "nomodel": True})
     for c in cases:
         if c["table"].startswith("fconvspec"):
             c["must"] = True
@@ -596,6 +617,133 @@ def table_cases():
 
 def mandatory_cases(mode):
     """table programs that are part of every run of either stream"""
-    return [dict(c, mode=mode) for c in table_cases() if c.get("must")]
+    return [dict(c, mode=mode) for c in table_cases() if c.get("must") and not c.get("nomodel")]
+
+
+# ------------------------------------------------------------------------------------------------
+# lambda expressions: outside the Coq model (function values, parameter binding), checked by the native comparison
+# ------------------------------------------------------------------------------------------------
+def _lambda_params(g, loopvar=None):
+    """-> (parameter list source, positional names, keyword-only names)"""
+    rng = g.rng
+    pos = rng.sample(["p", "q", "r"], rng.choice([0, 1, 1, 2, 3]))
+    ndef = rng.randint(0, len(pos))
+    parts = []
+    for i, n in enumerate(pos):
+        if i >= len(pos) - ndef:
+            dflt = loopvar if (loopvar and rng.random() < 0.6) else g.wrap(g.lit())
+            parts.append(f"{n}={dflt}")
+        else:
+            parts.append(n)
+    if pos and rng.random() < 0.15:
+        parts.insert(rng.randint(1, len(pos)), "/")
+    star = rng.random() < 0.3
+    if star:
+        parts.append("*rest")
+    kwonly = []
+    if rng.random() < 0.35:
+        if not star:
+            parts.append("*")
+        kwonly = ["k"]
+        dflt = loopvar if (loopvar and rng.random() < 0.5) else g.wrap(g.lit())
+        parts.append("k=" + dflt if rng.random() < 0.7 else "k")
+    if rng.random() < 0.15:
+        parts.append("**kw")
+    g.lam_sig = {"npos": len(pos), "nreq": len(pos) - ndef, "star": star, "kreq": bool(kwonly) and parts[-1 - (1 if parts[-1] == "**kw" else 0)] == "k"}
+    return ", ".join(parts), pos + (["rest"] if star else []), kwonly
+
+
+def _lambda_body(g, names):
+    saved = dict(g.vars)
+    g.vars = {n: "N" for n in names}
+    g.no_scope = True
+    try:
+        r = g.rng.random()
+        if r < 0.55 and names:
+            body = "(" + ", ".join(names) + ",)"
+        else:
+            body = g.expr(2)[0]
+    finally:
+        g.no_scope = False
+        g.vars = saved
+    return body
+
+
+def _lambda_call(g, fn, pos, kwonly):
+    """mostly well-formed calls (right number of positionals, required keyword-only given), sometimes deliberately not"""
+    rng = g.rng
+    sig = g.lam_sig
+    val = lambda: g.wrap(g.lit()) if rng.random() < 0.5 else g.lit()  # noqa: E731
+    if rng.random() < 0.75:
+        n = rng.randint(sig["nreq"], sig["npos"] + (2 if sig["star"] else 0))
+        args = [val() for _ in range(n)]
+        if kwonly and (sig["kreq"] or rng.random() < 0.5):
+            args.append(f"k={val()}")
+    else:
+        args = [val() for _ in range(rng.choice([0, 1, 2, 3, 4]))]
+        pool = [n for n in pos + kwonly + ["zz"] if n != "rest"]
+        for n in rng.sample(pool, min(len(pool), rng.choice([0, 1, 2]))):
+            args.append(f"{n}={val()}")
+    if rng.random() < 0.1:
+        args.insert(len([a for a in args if "=" not in a]), "*" + g.wrap("[1, 2]"))
+    return f"{fn}({', '.join(args)})"
+
+
+def lambda_case(rng):
+    """a lambda expression evaluated once or several times (inside a comprehension: every evaluation is a new function
+    with freshly evaluated defaults), then called in several ways; defaults, *rest, keyword-only parameters, closures
+    over globals, shared mutable defaults, identity of the functions"""
+    g = Gen(rng, max_depth=3)
+    lines = []
+    shape = rng.random()
+    if shape < 0.3:
+        params, pos, kwonly = _lambda_params(g)
+        lines.append(f"fn = lambda {params}: {_lambda_body(g, pos + kwonly)}")
+        if rng.random() < 0.3:
+            lines.append(f"g0 = {g.lit()}")
+        for i in range(rng.choice([1, 2, 3])):
+            lines.append(f"r{i} = {_lambda_call(g, 'fn', pos, kwonly)}")
+    elif shape < 0.75:
+        params, pos, kwonly = _lambda_params(g, loopvar="i")
+        body = _lambda_body(g, pos + kwonly)
+        it = rng.choice([g.wrap("[0, 1, 2]"), "(1, 2)", g.wrap("['a', 'b']"), g.wrap("[]"), "[3]"])
+        if rng.random() < 0.7:
+            lines.append(f"fs = [lambda {params}: {body} for i in {it}]")
+            lines.append(f"rs = [{_lambda_call(g, 'fn', pos, kwonly)} for fn in fs]")
+            lines.append("same = [a is b for a in fs for b in fs]")
+            lines.append(f"r0 = {_lambda_call(g, 'fs[0]', pos, kwonly)}")
+            if rng.random() < 0.4:
+                lines.append(f"r1 = {_lambda_call(g, 'fs[-1]', pos, kwonly)}")
+        else:
+            lines.append(f"fd = {{i: (lambda {params}: {body}) for i in {it}}}")
+            lines.append(f"rs = [{_lambda_call(g, 'fd[key]', pos, kwonly)} for key in fd]")
+            lines.append("same = [fd[a] is fd[b] for a in fd for b in fd]")
+    elif shape < 0.9:
+        params, pos, kwonly = _lambda_params(g)
+        call = _lambda_call(g, "", pos, kwonly)
+        lines.append(f"r0 = (lambda {params}: {_lambda_body(g, pos + kwonly)}){call}")
+    else:
+        # a mutable default is shared by the calls of ONE function, not by the functions of several evaluations
+        it = rng.choice(["[0, 1, 2]", g.wrap("[0, 1]")])
+        lines.append(f"acc = [lambda base=[n]: base for n in {it}]")
+        lines.append("r0 = [fn() for fn in acc]")
+        lines.append(f"acc[0]().append({g.wrap(g.lit())})")
+        lines.append("r1 = [fn() for fn in acc]")
+    return {"src": "\n".join(lines), "init": dict(g.init), "mode": "native", "seed": rng.randrange(1 << 30), "nomodel": True}
+
+
+LAMBDA_TABLE = [
+    "fs = [lambda i=i: i * 10 for i in t(1, [0, 1, 2])]\nr = [f() for f in fs]\nsame = [a is b for a in fs for b in fs]",
+    "g1 = [lambda d=t(i, i): d for i in [5, 6]]\nr = [f() for f in g1]\nr2 = g1[0](7)",
+    "s = (lambda a, *b, c=t(1, 5): (a, b, c))(1, 2, 3)\ns2 = (lambda a, *b, c=t(2, 5): (a, b, c))(1, c=t(3, 9))",
+    "d = {n: (lambda s, n=n: s * n) for n in (1, 2)}\nr = [d[1]('a'), d[2]('a')]",
+    "fn = lambda x, y=t(1, 2), *z, k=t(2, 3), **kw: (x, y, z, k, kw)\na = fn(1)\nb = fn(1, 2, 3, 4, k=5, j=6)\nc = fn()",
+    "fn = lambda x: t(1, x) + g0\ng0 = 5\na = fn(1)\nb = fn('s')",
+    "acc = [lambda base=[n]: base for n in [0, 1, 2]]\nr = [f() for f in acc]\nacc[0]().append(9)\nr2 = acc[0]()\nr3 = acc[1]()",
+    "fn = lambda a, b=1: a < b < t(1, 3)\nx = fn(0)\ny = fn(2, 1)\nz = fn(b=3, a=1)\nw = fn(1, 2, 3)",
+    "x = 1\nfn = lambda: x\nx = 2\na = fn()\ng1 = lambda x=x: x\nx = 3\nb = g1()",
+    "a, b = [lambda: 0 for j in (1, 2)]\nsame = a is b\nr = (a(), b())",
+    "ks = {k: [lambda v=t(k, k), w=j: (v, w) for j in (1, 2)] for k in (3, 4)}\nr = [f() for k in ks for f in ks[k]]",
+]
 
 
